@@ -7,6 +7,7 @@ package gocql
 // must survive that, whatever happened to the caller of the stalled response.
 
 import (
+	"bytes"
 	"errors"
 	"fmt"
 	"log"
@@ -33,12 +34,21 @@ type vxStallRound struct {
 type vxStallCase struct {
 	Proto  int            `json:"proto"`
 	Rounds []vxStallRound `json:"rounds"`
+	// Long > 0: instead of the rounds, one response whose body stops for 6.5 read timeouts - longer than the five
+	// attempts the driver makes - after its first Long fake frames (the blob is made of byte patterns that read as
+	// frames for streams 1..3). The driver may give the connection up; it must not go on reading frames from the
+	// middle of that body.
+	Long int `json:"long,omitempty"`
 }
 
 const vxStallTimeout = 250 * time.Millisecond
 
 func vxDrawStall(t *rapid.T) *vxStallCase {
 	c := &vxStallCase{Proto: rapid.IntRange(1, 5).Draw(t, "proto")}
+	if rapid.IntRange(0, 5).Draw(t, "long") == 0 {
+		c.Long = rapid.IntRange(1, 5).Draw(t, "long_n")
+		return c
+	}
 	for i := rapid.IntRange(1, 2).Draw(t, "rounds"); i > 0; i-- {
 		r := vxStallRound{Blob: rapid.SampledFrom([]int{0, 1, 9, 40, 300, 5000}).Draw(t, "blob"),
 			Riders: rapid.IntRange(0, 2).Draw(t, "riders"), Probes: rapid.IntRange(1, 3).Draw(t, "probes")}
@@ -150,7 +160,7 @@ type vxStallResult struct {
 }
 
 func vxRunStall(c *vxStallCase, k *vstats.Case) error {
-	if c.Proto < 1 || c.Proto > 5 || len(c.Rounds) == 0 {
+	if c.Proto < 1 || c.Proto > 5 || (len(c.Rounds) == 0 && c.Long <= 0) {
 		return nil
 	}
 	cl := vnode.NewCluster(vxSpecs(1, 1))
@@ -202,6 +212,102 @@ func vxRunStall(c *vxStallCase, k *vstats.Case) error {
 			return fmt.Errorf("%s %s: row %q together with error %v", what, r.tok, r.got, r.err)
 		}
 		return nil
+	}
+	if c.Long > 0 {
+		k.NonTrivial()
+		k.Class("body stalled beyond the driver's five read attempts")
+		stok := "stall_long"
+		sres := make(chan vxStallResult, 1)
+		go ask(stok, sres)
+		if !waitArrival(stok) {
+			return fmt.Errorf("harness: request %s never reached the node", stok)
+		}
+		rc := node.take(stok)
+		frame, err := vxStallFrame(rc, stok, 600)
+		if err != nil {
+			return fmt.Errorf("harness: %v", err)
+		}
+		pay := vxStallPayload(stok, 600, c.Proto)
+		period := cqlspec.HeaderSize(c.Proto) + 4 + len(stok)
+		at := bytes.Index(frame, pay[:period])
+		if at < 0 {
+			return fmt.Errorf("harness: payload not found in the frame")
+		}
+		cut := at + period*(1+c.Long%5)
+		node.split(rc.Conn.ID)
+		if err := rc.Conn.SendRaw(frame[:cut]); err != nil {
+			return fmt.Errorf("harness: write: %v", err)
+		}
+		time.Sleep(vxStallTimeout * 56 / 10) // the five attempts are over
+		// three requests that will hold the stream ids the fake frames name
+		var ptoks []string
+		pres := make(chan vxStallResult, 3)
+		for j := 0; j < 3; j++ {
+			tok := fmt.Sprintf("holder_%d", j)
+			ptoks = append(ptoks, tok)
+			go ask(tok, pres)
+		}
+		time.Sleep(vxStallTimeout * 9 / 10)
+		node.endSplit(rc, frame[cut:]) // the rest of the body arrives now (an error if the driver closed the connection)
+		time.Sleep(20 * time.Millisecond)
+		for _, tok := range ptoks {
+			if prc := node.take(tok); prc != nil {
+				if f, err := vxStallFrame(prc, tok, 17); err == nil {
+					prc.Conn.SendRaw(f)
+				}
+			}
+		}
+		for range ptoks {
+			select {
+			case r := <-pres:
+				if r.err == nil && r.got != r.tok {
+					return fmt.Errorf("a response body stalled for 6.5 read timeouts; afterwards request %s, in flight when the rest of that body arrived, was answered with %q (bytes of the stalled body were read as frames)", r.tok, r.got)
+				}
+				if err := judge(r, 17, "request"); err != nil {
+					return err
+				}
+			case <-time.After(10 * time.Second):
+				return fmt.Errorf("a request issued after the stalled body did not return within 10 s (hang)")
+			}
+		}
+		select {
+		case sr := <-sres:
+			if sr.err == nil {
+				return fmt.Errorf("the caller of the stalled response got a result although its read timeout (and five read attempts) were over")
+			}
+		case <-time.After(10 * time.Second):
+			return fmt.Errorf("the caller of the stalled response did not return within 10 s (hang)")
+		}
+		// the session recovers: a probe succeeds within a few attempts (the connection may have been replaced)
+		var lastErr error
+		for j := 0; j < 8; j++ {
+			tok := fmt.Sprintf("probe_long_%d", j)
+			pr := make(chan vxStallResult, 1)
+			go ask(tok, pr)
+			go func() {
+				if waitArrival(tok) {
+					if prc := node.take(tok); prc != nil {
+						if f, err := vxStallFrame(prc, tok, 17); err == nil {
+							prc.Conn.SendRaw(f)
+						}
+					}
+				}
+			}()
+			select {
+			case r := <-pr:
+				if err := judge(r, 17, "probe"); err != nil {
+					return err
+				}
+				if r.err == nil {
+					return nil
+				}
+				lastErr = r.err
+			case <-time.After(10 * time.Second):
+				return fmt.Errorf("probe %s did not return within 10 s (hang)", tok)
+			}
+			time.Sleep(20 * time.Millisecond)
+		}
+		return fmt.Errorf("after a response body that stalled for 6.5 read timeouts 8 probes in a row failed; last error: %v", lastErr)
 	}
 	for ri, rd := range c.Rounds {
 		if len(rd.Cuts) == 0 || len(rd.Cuts) != len(rd.Pause) {
